@@ -25,7 +25,7 @@ def cases(chk):
         yield c["source"], c["n_init"], "corpus:" + os.path.basename(path)
     n = 220 if chk.tier == "thorough" else 28
     for _ in range(n):
-        prog = R.gen_program(chk.rng, chk.rng.randint(3, 6))
+        prog = R.gen_program(chk.rng, chk.rng.randint(3, 6), codeblocks=chk.rng.random() < 0.3)
         yield R.source_of(prog), R.n_init_nodes(prog), "gen"
 
 
@@ -70,6 +70,12 @@ def prepare(parsed, i, j, with_extract=False):
     """real lists + the driver lines of one region"""
     nodes = parsed.region_nodes(i, j)
     real_in, real_out = R.real_inout(nodes)
+    if R.has_codeblock(nodes):
+        # MiniF cannot execute the region: access model with CodeBlock items, ExtractTrans
+        # accept/refuse always, property via the gfortran replay oracle (in conclude)
+        ctx = {"parsed": parsed, "i": i, "j": j, "real": [real_in, real_out], "cb": True, "partial": {},
+               "extract": R.real_extract_lists(parsed, i, j)}
+        return ctx, [R.line("extract", R.access_items(parsed, nodes))]
     lines = [R.line("inout", parsed.export(nodes))] + [replay_line(parsed, i, j, real_in, d) for d in DELTAS]
     ctx = {"parsed": parsed, "i": i, "j": j, "real": [real_in, real_out], "partial": R.partial_first_writes(nodes)}
     if with_extract:
@@ -77,7 +83,32 @@ def prepare(parsed, i, j, with_extract=False):
     return ctx, lines
 
 
+GF_BUDGET = {"left": 0}
+
+
+def conclude_cb(ctx, out, force_oracle=False):
+    """region containing a CodeBlock"""
+    parsed, i, j = ctx["parsed"], ctx["i"], ctx["j"]
+    real_in, real_out = ctx["real"]
+    m = common.parse_sx(out[0])
+    id2n = {v: k for k, v in parsed.names.table().items()}
+    model = [sorted(id2n[x] for x in m[1]), sorted(id2n[x] for x in m[2])]
+    res = {"real": [real_in, real_out], "model": model, "wfw": False, "od": False, "fails": [], "partial": {},
+           "cb": True, "extract": ctx["extract"], "model_extract": m[0], "oracle": "not run"}
+    accepted = ctx["extract"] is not None
+    if force_oracle or accepted or GF_BUDGET["left"] > 0:
+        if not (force_oracle or accepted):
+            GF_BUDGET["left"] -= 1
+        lists = ctx["extract"] if accepted else (real_in, real_out)
+        fails = R.gfortran_replay(parsed, i, j, list(lists[0]), list(lists[1]))
+        res["oracle"] = "gfortran" if fails is not None else "not applicable"
+        res["fails"] = fails or []
+    return res
+
+
 def conclude(ctx, out):
+    if ctx.get("cb"):
+        return conclude_cb(ctx, out)
     parsed, i, j = ctx["parsed"], ctx["i"], ctx["j"]
     real_in, real_out = ctx["real"]
     m = common.parse_sx(out[0])
@@ -89,19 +120,19 @@ def conclude(ctx, out):
             if f[0] not in [g[0] for g in fails]:
                 fails.append((f[0], dict(f[1], delta=d)))
     res = {"real": [real_in, real_out], "model": [model_in, model_out], "wfw": m[2] == 1, "od": m[3] == 1,
-           "fails": fails, "partial": ctx["partial"]}
+           "fails": fails, "partial": ctx["partial"], "model_extract": "accept"}
     if "extract" in ctx:
         res["extract"] = ctx["extract"]
     return res
 
 
-NLINES = 1 + len(DELTAS)
-
-
-def check_region(parsed, i, j, with_extract=False):
+def check_region(parsed, i, j, with_extract=False, force_oracle=False):
     """-> dict with real lists, model answer, failures (uses the driver)"""
     ctx, lines = prepare(parsed, i, j, with_extract)
-    return conclude(ctx, driver("C12", lines))
+    out = driver("C12", lines)
+    if ctx.get("cb"):
+        return conclude_cb(ctx, out, force_oracle=force_oracle)
+    return conclude(ctx, out)
 
 
 def call_cases(chk):
@@ -159,6 +190,12 @@ def classify(res):
     if not res["fails"]:
         return None
     kinds = {k for k, _ in res["fails"]}
+    if res.get("cb"):
+        # a CodeBlock's accesses are invisible to get_in_out_parameters; ExtractTrans must
+        # therefore refuse such regions — an ACCEPTED one that fails is never a known finding
+        if res["extract"] is not None or res["model"] != res["real"] or res["model_extract"] != "refuse":
+            return None
+        return "C12-codeblock-accesses-ignored"
     if "dynamic-write-not-output" in kinds:
         return None                              # C12_outputs is unconditional
     if res["model"] != res["real"] or not res["partial"]:
@@ -197,10 +234,13 @@ def run(chk):
                                "correspondence harness harness/props/c12.py, c12_region.py"]
     import time
     t0 = time.time()
+    global WhileLoop
+    from psyclone.psyir.nodes import WhileLoop
     chk.lean()
     chk.cov["lean_build_audit_s"] = round(time.time() - t0, 1)
     dist = {"regions": 0, "programs": 0, "model_agrees": 0, "WholeFirstWrites": 0, "OutputsDefined": 0,
-            "failing_known": {}, "extract_checked": 0, "extract_refused": 0, "skipped_unsupported": 0}
+            "failing_known": {}, "extract_checked": 0, "extract_refused": 0, "skipped_unsupported": 0,
+            "codeblock_regions": 0, "codeblock_oracle_runs": 0, "regions_with_while": 0}
     reported = set()
     todo, lines = [], []
     for src, n_init, origin in cases(chk):
@@ -217,19 +257,30 @@ def run(chk):
                 except (minif.Unsupported, NotImplementedError):
                     dist["skipped_unsupported"] += 1
                     continue
+                ctx["at"], ctx["n"] = len(lines), len(ls)
                 todo.append(ctx)
                 lines += ls
     chk.cov["real_code_s"] = round(time.time() - t0 - chk.cov["lean_build_audit_s"], 1)
     t1 = time.time()
     outs = driver("C12", lines)
     chk.cov["driver_s"] = round(time.time() - t1, 1)
-    for k, ctx in enumerate(todo):
-        res = conclude(ctx, outs[k * NLINES:(k + 1) * NLINES])
+    GF_BUDGET["left"] = 40 if chk.tier == "thorough" else 8
+    for ctx in todo:
+        res = conclude(ctx, outs[ctx["at"]:ctx["at"] + ctx["n"]])
         src, n_init, i, j = ctx["parsed"].src, ctx["parsed"].n_init, ctx["i"], ctx["j"]
         dist["regions"] += 1
         agreed = res["model"] == res["real"]
         case = {"source": src, "n_init": n_init, "region": [i, j]}
+        if res.get("cb"):
+            dist["codeblock_regions"] += 1
+            dist["codeblock_oracle_runs"] += res["oracle"] == "gfortran"
         if "extract" in res:
+            real_dec = "refuse" if res["extract"] is None else "accept"
+            if real_dec != res["model_extract"]:
+                agreed = False
+                if len(chk.broken) < 5:
+                    chk.correspondence_broken("ExtractTrans accept/refuse differs from RegionData.extractTrans",
+                                              case, res["model_extract"], real_dec)
             if res["extract"] is None:
                 dist["extract_refused"] += 1
             else:
@@ -240,6 +291,8 @@ def run(chk):
                         chk.correspondence_broken("ExtractTrans/ExtractNode lists differ from get_in_out_parameters",
                                                   case, res["real"], list(res["extract"]))
         dist["model_agrees"] += agreed
+        dist["regions_with_while"] += bool(ctx["parsed"].region_nodes(i, j) and any(
+            n.walk(WhileLoop) for n in ctx["parsed"].region_nodes(i, j)))
         dist["WholeFirstWrites"] += res["wfw"]
         dist["OutputsDefined"] += res["od"]
         chk.case(dict(case, real=res["real"]),
@@ -265,7 +318,7 @@ def run(chk):
     for e in common.known_findings("C12"):
         w = e["witness"]
         parsed = R.Parsed(w["source"], w["n_init"])
-        res = check_region(parsed, *w["region"])
+        res = check_region(parsed, *w["region"], force_oracle=True)
         if res["fails"] and classify(res) == e["id"]:
             chk.known(e["what"])
 
@@ -290,8 +343,11 @@ def replay(payload):
         return replay_calls(payload)
     parsed = R.Parsed(payload["source"], payload["n_init"])
     i, j = payload["region"]
-    res = check_region(parsed, i, j)
+    res = check_region(parsed, i, j, with_extract=True, force_oracle=True)
     print(payload["source"])
+    if res.get("cb"):
+        print("region contains a CodeBlock; ExtractTrans:", "refuses" if res["extract"] is None else
+              f"ACCEPTS with lists {list(res['extract'])}", "; oracle:", res["oracle"])
     print("region: body statements", [i, j])
     print("real inputs/outputs:", res["real"], " model:", res["model"])
     print("expected:", payload.get("expected", ""))
